@@ -116,7 +116,7 @@ impl Prop for C15 {
 				out.fail(format!("C15:panic:{label}:{}", panic_site(p)), format!("step {si} ({label}): {p}"));
 				break;
 			}
-			let poisoned = matches!(op, Some(Op::Serialize { poison: Some(_), .. }));
+			let poisoned = matches!(op, Some(Op::Serialize { poison: Some(_), .. })) || matches!(op, Some(Op::SerializeAll { items }) if items.iter().any(|i| i.2.is_some()));
 			match &st.res {
 				Err(e) if e.starts_with("HARNESS") || e.starts_with("PRE-SERIALIZE") => {
 					out.fail(format!("harness:C15:{label}"), e.clone());
@@ -129,6 +129,7 @@ impl Prop for C15 {
 				_ => {}
 			}
 			if st.poison_fired && st.res.is_ok() {
+				// (for serialize_all too: an item whose Serialize impl failed must stop the call with Err)
 				out.fail(format!("C15:failed-value-accepted:{codec}"), format!("step {si}: the value's Serialize impl failed / mis-presented, yet the call returned Ok"));
 				break;
 			}
